@@ -185,6 +185,9 @@ class IncMachine(RuleBasedStateMachine):
                 self.includes[t] = [PCH] + self.includes[t]
         self.objnames = [data.draw(st.sampled_from(OBJ_NAMES)).format(i)
                          for i in range(ntu)]
+        if data.draw(st.integers(0, 2)) == 0:
+            # two objects with the same base name in different directories
+            self.objnames[0], self.objnames[1] = 'da/unit', 'db/unit'
         for f in list(self.ver):
             self.write(f)
         self.write_main_and_script()
